@@ -107,6 +107,7 @@ def run_property(prop, outcome):
     rdir = os.path.join(VERIF, "replays", prop)
     accepted = []
     checker_cache = {}
+    ctx_candidates = []
     for tpl in templates:
         ok, text = bytecode.check_source(tpl.src)
         chk = ML.parse_checker(text, tpl.src)
@@ -129,6 +130,7 @@ def run_property(prop, outcome):
                 break
         if prop == "C12":
             n_obl += 1
+            ctx_candidates.append((tpl, gap is not None))
             if not chk["nonexhaustive"] and gap is not None:
                 val = literal(tpl.t, gap[0], gap[1], gap[2])
                 key = "accepted_gap:%s:%s" % (ML.tname(tpl.t).replace(" ", ""), "|".join(entry["arms"]).replace(" ", ""))
@@ -152,11 +154,14 @@ def run_property(prop, outcome):
                         outcome.inconc("cannot parse missing-case text `%s`: %s" % (w, e))
                         continue
                     covers = False
-                    for shape, sv, ms, cons in orc:
-                        r, _ = sat(stats, *cons, ML.matches(wp, sv, tpl.t), z3.Not(z3.Or(*ms)))
-                        if r == z3.sat:
-                            covers = True
-                            break
+                    try:
+                        for shape, sv, ms, cons in orc:
+                            r, _ = sat(stats, *cons, ML.matches(wp, sv, tpl.t), z3.Not(z3.Or(*ms)))
+                            if r == z3.sat:
+                                covers = True
+                                break
+                    except (KeyError, IndexError, TypeError, AttributeError, ValueError, z3.Z3Exception):
+                        covers = False  # the listed case is not even a pattern of the scrutinee's type
                     if not covers:
                         bad_w = w
                         break
@@ -199,6 +204,11 @@ def run_property(prop, outcome):
         if prop == "C14" and chk["ok"] and gap is None:
             accepted.append((tpl, orc, entry))
     functions = ["statics::pat_exhaustiveness (run for real through the driver)"]
+    if prop == "C12":
+        a, b, ctx_samples = context_family(outcome, ctx_candidates, rdir, 10 if t != "thorough" else 40)
+        n_obl += a
+        n_hold += b
+        samples = samples[:45] + ctx_samples[:20]
     if prop == "C14":
         functions = ["translate_bytecode: match / pattern code generation (compiled for real)", "vm instruction model (engine S)"]
         for tpl, orc, entry in accepted:
@@ -285,9 +295,69 @@ def run_property(prop, outcome):
         "bounds": "scrutinee types: %s; patterns nested to depth 2 with literals {true,false}, {0,7}, {1.0,1.00,2.5}, {\"a\",\"\"}, nil, variables, "
                   "wildcards, one level of or-patterns; arm lists of 1..3 arms: %d templates (exhaustive over short lists for small pattern "
                   "pools, seeded samples otherwise). The value space of every type (all ints, all float bit patterns, strings <= 1 byte) is "
-                  "the solver's. Outside: longer arm lists, deeper nesting, generic types." % (", ".join(ML.tname(x) for x in ML.TYPES), len(templates)),
+                  "the solver's. C12 additionally wraps matches in %d syntactic positions (arm and scrutinee of an outer match, task block, lambda, "
+                  "branches, loops, let, return, call argument, tuple / array component, index base, operand, member function, top level) and demands "
+                  "the same verdict. Outside: longer arm lists, deeper nesting, generic types." % (", ".join(ML.tname(x) for x in ML.TYPES), len(templates), len(CONTEXTS)),
     }
     return cov
+
+
+# Every position a match expression can occur in: the checker's verdict must not depend on it.
+CONTEXTS = [
+    ("function_body", "fn vf_ctx(v: %(T)s, w: bool) -> array<int> {\n  %(M)s\n}\n"),
+    ("arm_of_outer_match", "fn vf_ctx(v: %(T)s, w: bool) -> array<int> {\n  match w {\n    true -> %(M)s\n    false -> [0]\n  }\n}\n"),
+    ("block_in_arm_of_outer_match", "fn vf_ctx(v: %(T)s, w: bool) -> array<int> {\n  match w {\n    true -> {\n      let r = %(M)s\n      r\n    }\n    false -> [0]\n  }\n}\n"),
+    ("scrutinee_of_outer_match", "fn vf_ctx(v: %(T)s, w: bool) -> array<int> {\n  match %(M)s {\n    _ -> [0]\n  }\n}\n"),
+    ("task_block", "fn vf_ctx(v: %(T)s, w: bool) -> array<int> {\n  task {\n    let r = %(M)s\n  }\n  [0]\n}\n"),
+    ("lambda_body", "fn vf_ctx(v: %(T)s, w: bool) -> array<int> {\n  let g = (u: bool) -> %(M)s\n  g(w)\n}\n"),
+    ("if_branch", "fn vf_ctx(v: %(T)s, w: bool) -> array<int> {\n  if w {\n    %(M)s\n  } else {\n    [0]\n  }\n}\n"),
+    ("else_branch", "fn vf_ctx(v: %(T)s, w: bool) -> array<int> {\n  if w {\n    [0]\n  } else {\n    %(M)s\n  }\n}\n"),
+    ("for_body", "fn vf_ctx(v: %(T)s, w: bool) -> array<int> {\n  var r = [0]\n  for i in 1 {\n    r = %(M)s\n  }\n  r\n}\n"),
+    ("while_body", "fn vf_ctx(v: %(T)s, w: bool) -> array<int> {\n  var r = [0]\n  var go = w\n  while go {\n    r = %(M)s\n    go = false\n  }\n  r\n}\n"),
+    ("let_rhs", "fn vf_ctx(v: %(T)s, w: bool) -> array<int> {\n  let r = %(M)s\n  r\n}\n"),
+    ("return_value", "fn vf_ctx(v: %(T)s, w: bool) -> array<int> {\n  return %(M)s\n}\n"),
+    ("call_argument", "fn vf_id(x: array<int>) -> array<int> { x }\nfn vf_ctx(v: %(T)s, w: bool) -> array<int> {\n  vf_id(%(M)s)\n}\n"),
+    ("tuple_component", "fn vf_ctx(v: %(T)s, w: bool) -> array<int> {\n  let p = (1, %(M)s)\n  [0]\n}\n"),
+    ("array_element", "fn vf_ctx(v: %(T)s, w: bool) -> array<int> {\n  let p = [%(M)s]\n  [0]\n}\n"),
+    ("index_base", "fn vf_ctx(v: %(T)s, w: bool) -> array<int> {\n  [(%(M)s)[0]]\n}\n"),
+    ("operand", "fn vf_ctx(v: %(T)s, w: bool) -> array<int> {\n  [(%(M)s)[0] + 1]\n}\n"),
+    ("member_function", "type VfHolder = {\n  h: int\n}\nextend VfHolder {\n  fn m(self, v: %(T)s, w: bool) -> array<int> {\n    %(M)s\n  }\n}\n"),
+    ("top_level_statement", "let v: %(T)s = %(D)s\nlet vf_r = %(M)s\n"),
+]
+
+
+def context_family(outcome, candidates, rdir, per_kind):
+    """wrap non-exhaustive and exhaustive matches in every syntactic position; the checker must report exactly the non-exhaustive ones"""
+    gaps = [c for c in candidates if c[1]][:per_kind]
+    full = [c for c in candidates if not c[1]][:max(2, per_kind // 3)]
+    n = hold = 0
+    samples = []
+    for tpl, has_gap in gaps + full:
+        body = tpl.fn.split("\n", 1)[1].rsplit("}", 1)[0]  # "  match v { ... }\n"
+        mexpr = body.strip()
+        for cname, wrapper in CONTEXTS:
+            src = ML.DECLS + wrapper % {"T": ML.tname(tpl.t), "M": mexpr.replace("\n", "\n  "), "D": ML.dummy_value(tpl.t)}
+            ok, text = bytecode.check_source(src)
+            chk = ML.parse_checker(text, src)
+            if chk["other"] or "checker crashed" in text:
+                continue  # the wrapper itself is rejected for another reason (e.g. void result in this position): not a verdict
+            n += 1
+            entry = {"context": cname, "type": ML.tname(tpl.t), "arms": [ML.pat_str(p) for p in tpl.arms], "exhaustive": not has_gap,
+                     "checker": "non-exhaustive" if chk["nonexhaustive"] else "accepted"}
+            if has_gap and not chk["nonexhaustive"]:
+                key = "context:%s:accepted_gap" % cname
+                entry["verdict"] = "violated: a non-exhaustive match in position `%s` is accepted" % cname
+                report(outcome, "C12", key, entry["verdict"] + " (arms %s over %s)" % (entry["arms"], entry["type"]),
+                       write(rdir, key, src, entry["verdict"]))
+            elif not has_gap and chk["nonexhaustive"]:
+                key = "context:%s:false_gap" % cname
+                entry["verdict"] = "violated: an exhaustive match in position `%s` is reported non-exhaustive" % cname
+                report(outcome, "C12", key, entry["verdict"], write(rdir, key, src, entry["verdict"] + "\n" + text))
+            else:
+                entry["verdict"] = "holds"
+                hold += 1
+            samples.append(entry)
+    return n, hold, samples
 
 
 def report(outcome, prop, key, desc, path):
